@@ -149,14 +149,14 @@ class CaseTimeout(BaseException):
     mistake it for an answer of the library."""
 
 
-CASE_LIMIT_S = int(os.environ.get('DXVERIF_CASE_LIMIT', '120'))
+CASE_LIMIT_S = int(os.environ.get('DXVERIF_CASE_LIMIT', '60'))
 
 
 def _on_alarm(signum, frame):
     raise CaseTimeout()
 
 
-def run_one(mod, case, rec):
+def run_one(mod, case, rec, limit=None):
     """Run one case; an exception escaping the property module is a harness error.  A case that runs
     longer than CASE_LIMIT_S (a hang in the code under test, e.g. a loop over an astronomically long
     span) is abandoned and counted as inconclusive - never as a violation."""
@@ -165,11 +165,11 @@ def run_one(mod, case, rec):
     use_alarm = hasattr(signal, 'SIGALRM')
     if use_alarm:
         signal.signal(signal.SIGALRM, _on_alarm)
-        signal.alarm(CASE_LIMIT_S)
+        signal.alarm(limit or CASE_LIMIT_S)
     try:
         nt = mod.run_case(case, rec)
     except CaseTimeout:
-        rec.note('case abandoned after %d s (inconclusive)' % CASE_LIMIT_S)
+        rec.note('case abandoned after %d s (inconclusive)' % (limit or CASE_LIMIT_S))
         rec._fails = []
         nt = False
     finally:
@@ -357,11 +357,13 @@ def main(argv):
         known_seen[kid] = known_seen.get(kid, 0) + n
 
     # 3. shrink + report new violation buckets
+    t_shrink_end = time.time() + 300      # the unshrunk case is the replay once this is spent
     for sub, b in sorted(tot['buckets'].items()):
         case = b['case']
         detail = b['detail']
         try:
-            small, sdetail = shrink.shrink(mod, prop, sub, case, kidx)
+            left = t_shrink_end - time.time()
+            small, sdetail = shrink.shrink(mod, prop, sub, case, kidx, wall_s=min(90, left)) if left > 1 else (None, None)
             if small is not None:
                 case, detail = small, (sdetail or detail)
         except Exception:
